@@ -238,6 +238,8 @@ HAZARDS = {
 
 
 def _hazards_enabled():
+    # all three defects are repaired in /repo (85af7f9, 5c63d9b, 6789da0; KNOWN_FINDINGS_EXTRA.json): the classes are always generated
+    return set(HAZARDS)
     if os.environ.get("WV_X01_HAZARD"):
         return set(HAZARDS)
     known = set()
